@@ -128,7 +128,7 @@ Contract(
         "worker_id": S_.OptSTR,
         "strategy": S_.nullable(STRAT),
     },
-    trusted=True,
+    drops=("self._id = uuid.UUID(",),
     modifies=lambda c: {c.pre.fld_arr(PLACEMENT, f)[0]: [c.arg("self")] for f in ("_placement_type", "_computation", "_placement_time", "_worker_pool_id", "_worker_id", "_strategy", "_id")},
     ensures=lambda c: z3.And(
         c.f(c.arg("self"), PLACEMENT, "_placement_type") == c.arg("type"),
@@ -137,7 +137,7 @@ Contract(
         c.f(c.arg("self"), PLACEMENT, "_worker_pool_id") == c.arg("worker_pool_id"),
         c.f(c.arg("self"), PLACEMENT, "_strategy") == c.arg("strategy"),
     ),
-    note="Placement.__init__: field assignments plus a random id",
+    note="Placement.__init__: verified; dropped: the assignment of the random 128-bit id (uuid.UUID(int=random.getrandbits(128))) -- the _id field is left unconstrained",
     props=P,
 )
 Contract("workload.placement.Placement.create_task_cancellation", inline=True, props=P)
